@@ -20,7 +20,7 @@ pub const FLOORS: &[&str] = &[
     "trap_known", "trap_unknown", "exit_0xee", "exit_1_stack_off", "input_eof", "through_run_loop", "through_run_loop:run_ended",
     "coincide:jsrr_r7", "coincide:push_r7", "coincide:pop_r7", "coincide:ldr_same",
     "sequence:push_store_pop", "sequence:call_store_rets", "sequence:st_ld_same_address", "sequence:completed",
-    "debugger:step_into_compared", "debugger:step_after_goto", "debugger:step_after_word_under_pc_replaced", "debugger:step_after_reset",
+    "debugger:reserved_word_with_feature_off", "debugger:step_into_compared", "debugger:step_after_goto", "debugger:step_after_word_under_pc_replaced", "debugger:step_after_reset",
 ];
 
 fn opname(w: u16) -> &'static str {
@@ -973,6 +973,15 @@ fn debugger_case(seed: u64, i: u64) -> CaseOut {
         steps.push(lines.len());
         lines.push(rng.s(&["step into", "si", "step into 1", "si 1"]).to_string());
     }
+    // with the feature off, a word of opcode 0xD is reserved: executing it ends the run with status 1, debugger
+    // attached or not (the last word of the image is made one; the script goes there at its end, half of the time)
+    let reserved_at_end = !stack && rng.bool();
+    if reserved_at_end {
+        lines.push(format!("move x{:04x} x{:04x}", orig + n_words - 1, 0xD000 | (rng.u16() & 0x0FFF)));
+        lines.push(format!("goto x{:04x}", orig + n_words - 1));
+        lines.push(rng.s(&["step into", "continue", "step", "si 3"]).to_string());
+        lines.push("registers".to_string());
+    }
     lines.push("exit".to_string());
     let script = lines.join("\n");
     let sess = match run_session(&text, stack, &script, &[], 10_000, false) {
@@ -1098,6 +1107,28 @@ fn debugger_case(seed: u64, i: u64) -> CaseOut {
         }
         if leaves {
             break;
+        }
+    }
+    if reserved_at_end {
+        let resume_line = lines.len() - 3;
+        // did the session get as far as the resuming command on the reserved word?
+        let reached = sess.snaps.iter().any(|s| s.commands_read == resume_line && s.pc == orig + n_words - 1);
+        if reached {
+            out.class("debugger:reserved_word_with_feature_off");
+            let went_on = sess.snaps.iter().any(|s| s.commands_read > resume_line);
+            if went_on || sess.obs.end != Err(Abort::Exit(1)) {
+                out.violate(
+                    "C02/STACK/under-debugger",
+                    id,
+                    format!(
+                        "a word of opcode 0xD executed by `{}` with the stack feature off: the session {} (end: {}); the documented effect is the error exit, status 1",
+                        lines[resume_line],
+                        if went_on { "went on to another prompt" } else { "ended otherwise" },
+                        match &sess.obs.end { Ok(()) => "run() returned".to_string(), Err(a) => a.short() }
+                    ),
+                    J::obj(vec![("source", J::s(&text)), ("script", J::A(lines.iter().map(J::s).collect()))]),
+                );
+            }
         }
     }
     out.nontrivial = Some(crate::util::hash_bytes(format!("{}|{}", text, script).as_bytes()));
